@@ -460,16 +460,11 @@ func (x *xb) blocks(k int) {
 			continue
 		}
 		// value: *(&storage[blockIndex]) ; blockIndex = positions[key] (plain or comma-ok)
-		u, ok := sv.val.(*ssa.UnOp)
-		var ia *ssa.IndexAddr
-		if ok && u.Op == token.MUL {
-			ia, _ = u.X.(*ssa.IndexAddr)
-		}
-		if ia == nil {
+		_, idx, ok := blockElem(sv.val, 0)
+		if !ok {
 			s.undecide("XB-3", sub, sv.store.Store.Pos(), "the block of a corner is not read as storage[blockIndex]")
 			continue
 		}
-		idx := ia.Index
 		if ex, ok := idx.(*ssa.Extract); ok {
 			idx = ex.Tuple
 		}
@@ -497,6 +492,8 @@ func (x *xb) blocks(k int) {
 				}
 				if sv.store.K >= 0 {
 					s.hold("XB-3", sub+":default", sv.store.Store.Pos(), fmt.Sprintf("default block of corner %d is the marched block", k))
+				} else {
+					s.violate("XB-3", sub, sv.store.Store.Pos(), fmt.Sprintf("the per-corner loop fetches the marched block itself for corner %d instead of the block at that corner's block position: on the last cell of a block the samples across the boundary are read from the wrong block", k))
 				}
 				continue
 			}
